@@ -112,46 +112,83 @@ def alias_program(rng, name, kind, P):
 
 
 # ------------------------------------------------------------------ macros
-def expand_macro(params, body, args):
-    """Own substitution for simple macros (no # / ##, arguments are not macro invocations): body tokens with the
-    parameter tokens replaced by the argument token lists."""
+def expand_text(toks, defs, depth=0):
+    """Own expansion for simple macros (no # / ##, no self reference): arguments are expanded first, substituted for
+    the parameters, and the result is scanned again.  toks: token list; defs: {name: (params or None, body text)}."""
+    assert depth < 20
     out = []
-    for t in rc.lex_line(body):
-        if t in params:
-            out += rc.lex_line(args[params.index(t)])
+    k = 0
+    while k < len(toks):
+        t = toks[k]
+        if t in defs and defs[t][0] is None:
+            out += expand_text(rc.lex_line(defs[t][1]), defs, depth + 1)
+            k += 1
+        elif t in defs and k + 1 < len(toks) and toks[k + 1] == "(":
+            params, body = defs[t]
+            args, cur, d = [], [], 0
+            k += 2
+            while True:
+                u = toks[k]
+                if u == "(":
+                    d += 1
+                elif u == ")":
+                    if d == 0:
+                        break
+                    d -= 1
+                if u == "," and d == 0:
+                    args.append(cur)
+                    cur = []
+                else:
+                    cur.append(u)
+                k += 1
+            args.append(cur)
+            k += 1
+            args = [expand_text(a, defs, depth + 1) for a in args]
+            assert len(args) == len(params), (t, args)
+            sub = []
+            for b in rc.lex_line(body):
+                sub += args[params.index(b)] if b in params else [b]
+            out += expand_text(sub, defs, depth + 1)
         else:
             out.append(t)
-    return " ".join(out)
+            k += 1
+    return out
 
 
 # (name, params, body)
 MACROS = [
-    ("LIMIT", None, "{N}"), ("ZERO", None, "( 1 - 1 )"), ("SIZE2", None, "( 2 * {N} )"), ("NEGONE", None, "( - 1 )"),
+    ("LIMIT", None, "{N}"), ("ZERO", None, "( 1 - 1 )"), ("SIZE2", None, "( 2 * LIMIT )"), ("NEGONE", None, "( - 1 )"),
     ("SQR", ["v"], "( ( v ) * ( v ) )"), ("MAXV", ["a", "b"], "( ( a ) > ( b ) ? ( a ) : ( b ) )"), ("TWICE", ["v"], "( 2 * ( v ) )"),
     ("AT", ["arr", "i"], "( arr ) [ ( i ) ]"), ("DIVBY", ["a", "b"], "( ( a ) / ( b ) )"), ("ISNEG", ["v"], "( ( v ) < 0 )"),
-    ("DEREF", ["p"], "( * ( p ) )"), ("NPTR", None, "( ( int * ) 0 )"),
+    ("DEREF", ["p"], "( * ( p ) )"), ("NPTR", None, "( ( int * ) 0 )"), ("FOURTH", ["v"], "TWICE ( TWICE ( v ) )"),
 ]
 
-# use-site fragments: {M:NAME:arg1:arg2} placeholders are replaced by groups
+# use-site fragments: @<invocation text>@ becomes a use-site group (sugar = the text, expanded = its full expansion)
 MACRO_USES = [
-    ("LIMIT", "int $l_{v} [ @LIMIT@ ] ;\n$l_{v} [ @LIMIT@ ] = $p_{x} ;\n$l_{r} += $l_{v} [ 0 ] ;"),
-    ("LIMIT", "int $l_{v} = @LIMIT@ ;\nif ( $l_{v} == @LIMIT@ ) {{\n\t$l_{r} ++ ;\n}}"),
-    ("ZERO", "$l_{r} = $p_{x} / @ZERO@ ;"),
-    ("ZERO", "int $l_{v} = @ZERO@ ;\n$l_{r} += {K} % $l_{v} ;"),
-    ("SIZE2", "char $l_{v} [ @SIZE2@ ] ;\n$l_{v} [ @SIZE2@ + {K} ] = 0 ;\n$l_{r} += $l_{v} [ 1 ] ;"),
-    ("NEGONE", "int $l_{v} [ {N} ] ;\n$l_{v} [ @NEGONE@ ] = 0 ;\n$l_{r} += $l_{v} [ 0 ] ;"),
-    ("SQR", "int $l_{v} = @SQR:{K}@ ;\nint $l_{v2} [ 4 ] ;\n$l_{v2} [ $l_{v} + 3 ] = 0 ;\n$l_{r} += $l_{v2} [ 0 ] + $l_{v} ;"),
-    ("SQR", "int $l_{v} = {K} ;\n$l_{r} += @SQR:$l_{v}@ ;\nif ( @SQR:$l_{v}@ < 0 ) {{\n\t$l_{r} = 0 ;\n}}"),
-    ("MAXV", "int $l_{v} = @MAXV:{K}:{N}@ ;\n$l_{r} += 100 / ( $l_{v} - $l_{v} ) ;"),
-    ("MAXV", "$l_{r} += $f_{callee} ( @MAXV:0:- 1@ ) ;"),
-    ("TWICE", "int $l_{v2} [ {N} ] ;\n$l_{v2} [ @TWICE:{N}@ ] = 1 ;\n$l_{r} += $l_{v2} [ 0 ] ;"),
-    ("AT", "int $l_{v} [ {N} ] ;\n@AT:$l_{v}:{N}@ = 0 ;\n$l_{r} += @AT:$l_{v}:0@ ;"),
-    ("DIVBY", "$l_{r} += @DIVBY:$p_{x}:0@ ;"),
-    ("DIVBY", "int $l_{v} = 0 ;\n$l_{r} += @DIVBY:{K}:$l_{v}@ ;"),
-    ("ISNEG", "unsigned $l_{v} = ( unsigned ) $p_{x} ;\nif ( @ISNEG:$l_{v}@ )\n\t$l_{r} = 1 ;"),
-    ("DEREF", "int * $l_{v} = 0 ;\n$l_{r} += @DEREF:$l_{v}@ ;"),
-    ("NPTR", "int * $l_{v} = @NPTR@ ;\n* $l_{v} = {K} ;"),
-    ("NPTR", "$l_{r} += $f_{pcallee} ( @NPTR@ ) ;"),
+    "int $l_{v} [ @LIMIT@ ] ;\n$l_{v} [ @LIMIT@ ] = $p_{x} ;\n$l_{r} += $l_{v} [ 0 ] ;",
+    "int $l_{v} = @LIMIT@ ;\nif ( $l_{v} == @LIMIT@ ) {{\n\t$l_{r} ++ ;\n}}",
+    "$l_{r} = $p_{x} / @ZERO@ ;",
+    "int $l_{v} = @ZERO@ ;\n$l_{r} += {K} % $l_{v} ;",
+    "char $l_{v} [ @SIZE2@ ] ;\n$l_{v} [ @SIZE2@ + {K} ] = 0 ;\n$l_{r} += $l_{v} [ 1 ] ;",
+    "int $l_{v} [ {N} ] ;\n$l_{v} [ @NEGONE@ ] = 0 ;\n$l_{r} += $l_{v} [ 0 ] ;",
+    "int $l_{v} = @SQR ( {K} )@ ;\nint $l_{v2} [ 4 ] ;\n$l_{v2} [ $l_{v} + 3 ] = 0 ;\n$l_{r} += $l_{v2} [ 0 ] + $l_{v} ;",
+    "int $l_{v} = {K} ;\n$l_{r} += @SQR ( $l_{v} )@ ;\nif ( @SQR ( $l_{v} )@ < 0 ) {{\n\t$l_{r} = 0 ;\n}}",
+    "int $l_{v} = @MAXV ( {K} , {N} )@ ;\n$l_{r} += 100 / ( $l_{v} - $l_{v} ) ;",
+    "$l_{r} += $f_{callee} ( @MAXV ( 0 , - 1 )@ ) ;",
+    "int $l_{v2} [ {N} ] ;\n$l_{v2} [ @TWICE ( {N} )@ ] = 1 ;\n$l_{r} += $l_{v2} [ 0 ] ;",
+    "int $l_{v} [ {N} ] ;\n@AT ( $l_{v} , {N} )@ = 0 ;\n$l_{r} += @AT ( $l_{v} , 0 )@ ;",
+    "$l_{r} += @DIVBY ( $p_{x} , 0 )@ ;",
+    "int $l_{v} = 0 ;\n$l_{r} += @DIVBY ( {K} , $l_{v} )@ ;",
+    "unsigned $l_{v} = ( unsigned ) $p_{x} ;\nif ( @ISNEG ( $l_{v} )@ )\n\t$l_{r} = 1 ;",
+    "int * $l_{v} = 0 ;\n$l_{r} += @DEREF ( $l_{v} )@ ;",
+    "int * $l_{v} = @NPTR@ ;\n* $l_{v} = {K} ;",
+    "$l_{r} += $f_{pcallee} ( @NPTR@ ) ;",
+    # nested invocations: arguments that are macro invocations, a body that invokes macros
+    "int $l_{v} [ @SQR ( LIMIT )@ ] ;\n$l_{v} [ @SQR ( LIMIT )@ ] = 0 ;\n$l_{r} += $l_{v} [ 0 ] ;",
+    "$l_{r} += @DIVBY ( {K} , MAXV ( ZERO , NEGONE ) )@ ;",
+    "int $l_{v} [ 8 ] ;\n$l_{v} [ @FOURTH ( 2 )@ ] = 0 ;\n$l_{r} += $l_{v} [ @TWICE ( SQR ( 2 ) )@ - 8 ] ;",
+    "int $l_{v} = @FOURTH ( TWICE ( {K} ) )@ ;\nif ( $l_{v} == 8 * {K} ) {{\n\t$l_{r} ++ ;\n}}",
+    "$l_{r} += $f_{callee} ( @MAXV ( ZERO , TWICE ( ZERO ) )@ ) ;",
 ]
 
 
@@ -159,10 +196,20 @@ def macro_program(rng, name, P):
     fn = rng.sample(P["f"], 7)
     N = rng.choice([2, 3, 4, 8])
     chosen = rng.sample(MACRO_USES, rng.choice([4, 5, 6, 7]))
-    need = sorted(set(c[0] for c in chosen))
     mdef = {m[0]: (m[1], m[2].format(N=N)) for m in MACROS}
+    need = set()
+
+    def closure(text):
+        for t in rc.lex_line(text):
+            if t in mdef and t not in need:
+                need.add(t)
+                closure(mdef[t][1])
+    for c in chosen:
+        for inv in re.findall(r"@([^@]+)@", c):
+            closure(inv)
+    order = [m[0] for m in MACROS if m[0] in need]
     items = []
-    for m in need:
+    for m in order:
         params, body = mdef[m]
         head = m + ("(" + ", ".join(params) + ")" if params else "")
         items.append(build("#define %s %s" % (head, body), kind="macro", pin=True, entity="macro"))
@@ -178,30 +225,24 @@ def macro_program(rng, name, P):
         fresh = ln[1:]
         G = {}
         body = []
-        for (_m, tmpl) in frs:
+        for tmpl in frs:
             e = dict(env, v=fresh.pop(), v2=fresh.pop(), K=rng.choice([1, 2, 3, 5]), N=N)
             txt = tmpl.format(**e)
 
             def repl(mo):
-                parts = mo.group(1).split(":")
-                mname, args = parts[0], parts[1:]
-                params, mbody = mdef[mname]
-                if params:
-                    sugar = "%s ( %s )" % (mname, " , ".join(args))
-                    exp = expand_macro(params, mbody, args)
-                else:
-                    sugar, exp = mname, mbody
+                sugar = mo.group(1)
+                exp = " ".join(expand_text(rc.lex_line(sugar), mdef))
                 k = "g%d" % len(G)
                 G[k] = rc.X("macro", sugar, exp)
-                expansions.append((mname, sugar, exp))
+                expansions.append((sugar, exp))
                 return "$X_" + k
             txt = re.sub(r"@([^@]+)@", repl, txt)
             body += txt.split("\n")
         text = "int $f_%s ( int $p_%s )\n{\n\tint $l_%s = 0 ;\n" % (fn[2 + fi], env["x"], env["r"])
         text += "".join("\t" + b + "\n" for b in body) + "\treturn $l_%s ;\n}" % env["r"]
         items.append(build(text, G))
-    return {"name": name, "langs": ["c", "cpp"], "items": items, "origin": "generated macros " + ",".join(need), "xkinds": ["macro"],
-            "expansions": expansions, "macro_defs": {m: mdef[m] for m in need}}
+    return {"name": name, "langs": ["c", "cpp"], "items": items, "origin": "generated macros " + ",".join(order), "xkinds": ["macro"],
+            "expansions": expansions, "macro_defs": [(m, mdef[m][0], mdef[m][1]) for m in order]}
 
 
 # ------------------------------------------------------------------ templates
